@@ -119,20 +119,21 @@ def monitor_run(case, res, sem, run_index=0, single_run=True):
     if run.get("schema_check"):
         vs.append(V("C08", "schema@workflow-output", "returned output %r does not match OutputSchema(): %s" % (out_id, run["schema_check"][:300])))
     # ---- C03 result vs reference
-    unknown = any(st_unknown(sem.state(s.name)) for s in prog.steps)
-    if not unknown and not expect["fault"]:
-        if expect["avail"]:
-            if err:
-                vs.append(V("C03", "result@error-but-producible:" + run.get("err_type", ""), "run failed (%s) although outputs %s are producible" % (err[:200], sorted(expect["avail"]))))
-            elif out_id not in expect["avail"]:
-                vs.append(V("C03", "result@unproducible-output", "returned %r; producible per reference: %s" % (out_id, sorted(expect["avail"]))))
-            else:
+    unknown = any(st_unknown(sem.state(s.name)) for s in prog.steps) or bool(expect["unmodelled"])
+    if not unknown:
+        if out_id:
+            if out_id in expect["fault"]:
+                vs.append(V("C03", "result@output-with-unevaluable-expression", "returned %r (%r) although its expression cannot be evaluated over the produced step outputs (%s)" % (out_id, run.get("data"), expect["fault"][out_id])))
+            elif out_id in expect["avail"]:
                 m = R.match(expect["avail"][out_id], R.denum(run.get("data")))
                 if m:
                     vs.append(V("C03", "result@data", "output %r data differs from declarative meaning: %s" % (out_id, m)))
-        elif not expect["pending"]:
-            if not err:
+            elif expect["avail"]:
+                vs.append(V("C03", "result@unproducible-output", "returned %r; producible per reference: %s" % (out_id, sorted(expect["avail"]))))
+            elif not expect["pending"]:
                 vs.append(V("C03", "result@output-but-none-producible", "returned %r (%r) although no output is producible" % (out_id, run.get("data"))))
+        elif err and expect["avail"] and not expect["fault"]:
+            vs.append(V("C03", "result@error-but-producible:" + run.get("err_type", ""), "run failed (%s) although outputs %s are producible" % (err[:200], sorted(expect["avail"]))))
     # ---- C04 / C02: executions
     exp = expected_execs(sem)
     seen = {}
@@ -268,7 +269,7 @@ def _impossible_refs(sem, tree):
         except R.Unavail as u:
             if u.kind == R.IMPOSSIBLE:
                 out.append(r)
-        except R.EvalFault:
+        except (R.EvalFault, R.Unmodelled):
             pass
     return out
 
